@@ -177,16 +177,17 @@ def run_unit(unit_dir, tier, relock=False, known_ids=()):
                 res['undecided'].append(a)
             elif a not in locked:
                 res['undecided'].append('new assumption not in ASSUMPTIONS.lock: ' + a)
-        # shape lock: the loop structure (number and kind of loops after the rewrites) each function had when its proof was written.
-        # Loop invariants are attached by loop ordinal; if a change adds, removes or converts a loop, a failed obligation in that
-        # function may be a missing / misplaced invariant and not the code => undecided, never an alarm
-        shape = {fn['path']: fn.get('loop_kinds', []) for fn in asm['fns'] if not fn['stub']}
+        # shape lock: the loop structure (number and kind of loops after the rewrites) and the block nesting depth of every anchored
+        # statement each function had when its proof was written.  Loop invariants are attached by loop ordinal and hints by statement;
+        # if a change adds, removes or converts a loop, or moves an anchored statement into / out of a branch, a failed obligation in
+        # that function may be a missing / misplaced proof aid and not the code => undecided, never an alarm
+        shape = {fn['path']: {'loops': fn.get('loop_kinds', []), 'anchor_depths': fn.get('anchor_depths', [])} for fn in asm['fns'] if not fn['stub']}
         slock = os.path.join(unit_dir, 'SHAPE.lock')
         if relock:
             json.dump(shape, open(slock, 'w'), indent=0, sort_keys=True)
         locked_shape = json.load(open(slock)) if os.path.exists(slock) else {}
         for fn in asm['fns']:
-            if not fn['stub'] and fn['path'] in locked_shape and locked_shape[fn['path']] != fn.get('loop_kinds', []):
+            if not fn['stub'] and fn['path'] in locked_shape and locked_shape[fn['path']] != shape[fn['path']]:
                 fn['shape_changed'] = True
         if asm['info']['hints_dropped']:
             res['hints_dropped'] = asm['info']['hints_dropped']
@@ -345,7 +346,7 @@ def analyse(res, asm, r):
                 if lab is None:
                     lab = t2.strip()[:80]
             if fn:
-                oid = '%s::%s::call-pre(%s)' % (unit, fn['path'], lab)
+                oid = '%s::%s::call-pre(%s)' % (unit, fn['path'], lab or 'callee')
         if oid is None and fn:
             if org[0] == 'tpl' and kind == 'assertion':
                 lm = re.search(r'/\*\s*(C\d\d\.[A-Za-z0-9_.\-]+)\s*\*/', text)
@@ -364,7 +365,7 @@ def analyse(res, asm, r):
             # the proof of this function was written for another shape of the code (a helper was inlined by R23 / a hint lost its
             # anchor): a failed obligation here may be the missing proof aid and not the code => undecided, never an alarm
             res['undecided'].append('obligation %s failed in %s, whose %s: not reported as a violation (%s)' % (
-                oid, fn['path'], 'helper calls were inlined (R23)' if fn.get('inlined') else ('loop structure differs from the one its invariants were written for (SHAPE.lock)' if fn.get('shape_changed') else 'proof hints lost their anchor'), detail))
+                oid, fn['path'], 'helper calls were inlined (R23)' if fn.get('inlined') else ('loop structure / nesting of the anchored statements differs from the one its proof was written for (SHAPE.lock)' if fn.get('shape_changed') else 'proof hints lost their anchor'), detail))
             continue
         fails.append(rec)
     if js is None or vr is None:
